@@ -20,6 +20,7 @@ import (
 	"sync"
 	"time"
 
+	"github.com/prometheus/alertmanager/cluster"
 	"github.com/prometheus/alertmanager/config"
 	"github.com/prometheus/alertmanager/dispatch"
 	"github.com/prometheus/alertmanager/inhibit"
@@ -60,6 +61,9 @@ func (vi *VerifInstance) Handler() http.Handler { return vi.App.server.Handler }
 
 // Dispatcher returns the currently published dispatcher.
 func (vi *VerifInstance) Dispatcher() *dispatch.Dispatcher { return vi.r.dispatcher.Load() }
+
+// ClusterPeer returns the cluster peer of the instance (nil without clustering).
+func (vi *VerifInstance) ClusterPeer() *cluster.Peer { return vi.r.peer }
 
 // Inhibitor returns the currently published inhibitor.
 func (vi *VerifInstance) Inhibitor() *inhibit.Inhibitor { return vi.r.inhibitor.Load() }
